@@ -432,9 +432,13 @@ def r_walk(ctx):
                 obs.append(Ob("R-WALK", f["path"], "tile_id_range = tile_id .. tile_id + run_length", ok, "returns %s" % tstr(v)[:140], rel(f["loc"])))
         if f["path"].endswith("::is_leaf_dir_entry"):
             fa = ctx.fa(f)
+            rl = ("f", V("param:self"), "run_length")
             for p in fa.paths:
                 v = unmut(p.value)
-                ok = isinstance(v, tuple) and v[0] == "bin" and v[1] == "==" and {v[2], v[3]} == {("f", V("param:self"), "run_length"), C(0)}
+                ok = isinstance(v, tuple) and v[0] == "bin" and v[1] == "==" and {v[2], v[3]} == {rl, C(0)}
+                if not ok and isinstance(v, tuple) and v[:2] == ("lit", "bool") and isinstance(v[2], bool):
+                    # written as a match / matches! / early returns: the constant answer agrees with what the path knows about run_length
+                    ok = knows(p, ("eq", rl, 0)) is not None if v[2] else knows(p, ("ne", rl, 0)) is not None
                 obs.append(Ob("R-WALK", f["path"], "is_leaf_dir_entry = (run_length == 0)", ok, "returns %s" % tstr(v)[:100], rel(f["loc"])))
     return obs
 
@@ -515,8 +519,52 @@ def r_find(ctx):
             if is_call_to(v, lambda s: s.endswith("::find")) is False:
                 ok = False
                 why = "lookup is not an iterator `find` over the entries: %s" % tstr(v)[:100]
+        if not ok and not any(is_call_to(unmut(p.value), lambda s: s.endswith("::find")) for p in fa.paths):
+            ok, why = _find_as_loop(fa)
         obs.append(Ob("R-FIND", f["path"], "predicate = !is_leaf_dir_entry() && tile_id_range().contains(id)", ok, why, rel(f["loc"])))
     return obs
+
+
+def _find_as_loop(fa):
+    """the same lookup written as a loop with an early `return Some(entry)`: every such return knows "not a leaf pointer" and "the run covers the id"
+    (as `tile_id_range().contains(&id)` or as the two comparisons start ≤ id < start + run_length), the fall-through answer is None"""
+    tid = V("param:tile_id")
+    n_some = n_none = 0
+    for p in fa.paths:
+        v = unmut(p.value)
+        if is_call_to(v, lambda s: s == "core::option::Option::None"):
+            n_none += 1
+            continue
+        if not (is_call_to(v, lambda s: s == "core::option::Option::Some") and v[2]):
+            return False, "returns %s" % tstr(v)[:80]
+        ent = unmut(v[2][0])
+        if ent[0] != "elem" or iter_base(ent[1]) != ("f", V("param:self"), "entries"):
+            return False, "returns Some(%s), which is not an element of the entries in order" % tstr(ent)[:60]
+        n_some += 1
+        not_leaf = covers = lower = upper = False
+        for fct, d in path_facts(p):
+            if fct[0] == "bool" and is_call_to(fct[1], lambda s: s.endswith("::is_leaf_dir_entry")) and fct[1][2] and unmut(fct[1][2][0]) == ent and fct[2] is False:
+                not_leaf = True
+            if fct[0] == "ne" and unmut(fct[1]) == ("f", ent, "run_length") and fct[2] == 0:
+                not_leaf = True
+            if fct[0] == "bool" and fct[2] is True and _is_contains(fct[1], tid):
+                covers = True
+            if fct[0] == "rel" and fct[1] in ("<", "<=", ">", ">="):
+                op, l, r = fct[1], unmut(fct[2]), unmut(fct[3])
+                if op in ("<", "<="):
+                    op, l, r = {"<": ">", "<=": ">="}[op], r, l
+                # l > r  or  l >= r
+                if op == ">=" and l == tid and r == ("f", ent, "tile_id"):
+                    lower = True
+                if op == ">" and r == tid:
+                    a = affine(l)
+                    if aff_eq(a, (0, {("f", ent, "tile_id"): 1, ("f", ent, "run_length"): 1})):
+                        upper = True
+        if not (not_leaf and (covers or (lower and upper))):
+            return False, "a `return Some(entry)` path knows: not a leaf pointer = %s, covers the id = %s" % (not_leaf, covers or (lower and upper))
+    if n_some == 0 or n_none == 0:
+        return False, "no `Some(entry)` return or no `None` fall-through"
+    return True, "loop form: %d returning path(s) each know !leaf and start ≤ id < start + run_length" % n_some
 
 
 def _conjuncts(t):
